@@ -43,7 +43,7 @@ COMPONENTS = {
              "init_popen_io / get_execmodel (substituted after the shipped source has defined them)"],
 }
 
-PATHS = ["popen", "bare", "ssh", "ssh-config", "proxy-bare", "socket-bare"]
+PATHS = ["popen", "bare", "ssh", "ssh-config", "proxy-bare", "socket-bare", "vagrant", "vagrant-config"]
 BOOTLINE = "import sys;exec(eval(sys.stdin.readline()))"
 
 
@@ -65,7 +65,7 @@ def inspect(t, sub, res, hist):
             continue
         info = p["info"]
         kind = info.get("boot_kind")
-        want = "import" if t == "popen" else ("ssh" if t.startswith("ssh") else "bare")
+        want = "import" if t == "popen" else ("ssh" if t.startswith(("ssh", "vagrant")) else "bare")
         if kind != want:
             V.append(v("unexpected-bootstrap-kind", f"{t};{kind}", f"{name}: boot kind {kind}, expected {want}"))
         if info.get("boot_error"):
@@ -84,6 +84,13 @@ def inspect(t, sub, res, hist):
                     and a[-1].startswith("/opt/py/bin/python3 -c ")
             else:
                 ok = ok and a[2] == "simhost" and a[-1].startswith("python -c ")
+        elif a[0] == "vagrant":
+            ok = a[1] == "ssh" and a[3:5] == ["--", "-C"] and a[-1].endswith(f' -c "{BOOTLINE}"')
+            if t == "vagrant-config":
+                ok = ok and a[2] == "box1" and a[5:7] == ["-F", "/sim/ssh_config"] and len(a) == 8 \
+                    and a[-1].startswith("/opt/py/bin/python3 -c ")
+            else:
+                ok = ok and a[2] == "default" and len(a) == 6 and a[-1].startswith("python -c ")
         else:
             ok = a[-2:] == ["-c", BOOTLINE] and "-u" in a
             if t in ("bare", "proxy-bare", "socket-bare") and pr.name == "w1":
